@@ -191,6 +191,41 @@ def rbw(rng):
   return rng.uniform(1e-3, 1.0)
 
 
+CALPHAS = [0.5j, 1j, -1j, 0.3 + 0.4j, -0.75 + 0.25j, 0.6 - 0.8j, 2 - 1j,
+           -0.5 - 0.5j, 0.25j, 1 + 1j]
+
+
+def check_comb_complex(ctx, case):
+  _, strat, delay, alpha, variant = case
+  name = "comb." + strat
+  filt = comb[strat](delay, alpha) if variant != 1 else \
+         comb[strat](delay=delay, alpha=alpha)
+  n = 3 * delay + 2
+  xs = [complex((3 * k) % 7 - 3, (5 * k) % 4 - 1) if variant >= 2
+        else (3 * k) % 7 - 3 for k in range(n)]
+  ys = list(itertools.islice(iter(filt(list(xs))), n + 1))
+  ctx.count("comb:complex-alpha")
+  if len(ys) != n:
+    ctx.violation(name + "/output-shape", case, length=len(ys), want_length=n)
+    return True
+  want = []
+  for k in range(n):
+    y = xs[k]
+    if k >= delay:
+      y = y + alpha * (xs[k - delay] if strat == "ff" else want[k - delay])
+    want.append(y)
+  for k in range(n):
+    tol = 1e-12 * max(1.0, abs(want[k]))
+    err = abs(complex(ys[k]) - complex(want[k]))
+    ctx.err("comb complex alpha", err, tol)
+    if not err <= tol:
+      ctx.violation(name + "/recursion-with-complex-alpha", case, n=k,
+                    got=repr(ys[k]), want=repr(want[k]))
+      return True
+  ctx.count("comb:samples-compared", n)
+  return True
+
+
 def ralpha(rng):
   r = rng.random()
   if r < 0.15:
@@ -254,6 +289,10 @@ def cases(ctx):
              rfreq(rng))
     elif r < 0.55:
       yield ("reson", rng.choice(RES_STRATS), rfreq(rng), rbw(rng))
+    elif r < 0.57:
+      # complex alpha (numeric samples: the symbolic ones are real)
+      yield ("combc", rng.choice(("fb", "ff")), rng.randint(1, 8),
+             rng.choice(CALPHAS), rng.randint(0, 3))
     elif r < 0.67:
       strat = rng.choice(COMB_STRATS)
       p = rtau(rng) if strat == "tau" else ralpha(rng)
@@ -595,6 +634,8 @@ def run_case(ctx, case):
     return check_reson(ctx, case)
   if kind == "comb":
     return check_comb(ctx, case)
+  if kind == "combc":
+    return check_comb_complex(ctx, case)
   if kind == "gamma":
     return check_gamma(ctx, case)
   if kind == "stream":
@@ -629,6 +670,7 @@ def finish(ctx):
   ctx.need("freq_poles_exp:resonance-exists", 20)
   ctx.need("freq_poles_exp:no-resonance(gain not judged)", 5)
   ctx.need("comb:default-parameter", 10)
+  ctx.need("comb:complex-alpha", 100)
   ctx.need("comb.tau:inf", 5)
   ctx.need("comb:samples-compared", 1000)
   ctx.need("stream:coefficient-streams", 100)
